@@ -4,9 +4,9 @@ from __future__ import annotations
 import ast
 
 from ..cfg import cfg_of, T as TRUE, F as FALSE
-from ..dataflow import derives, rd_of
+from ..dataflow import derives, rd_of, resolve_local, resolve_name, return_values, expand_locals
 from ..loader import dotted, walk_no_nested
-from .common_guard import call_node, find_guard, raising_ifs
+from .common_guard import call_node, find_guard, raising_ifs, guard, rel, raise_facts, path_facts
 
 
 def validation(ctx, rule="C12.validation"):
@@ -26,14 +26,17 @@ def validation(ctx, rule="C12.validation"):
         only = all("gate_parameters" in t or "device" in t for t in tests) and any("gate_parameters" in t for t in tests)
         # every return of `compiled` passes the `if device and device.gate_parameters` test node
         gate_if = [h for h, lab in conds if "gate_parameters" in ast.unparse(cfg.node(h).ast)]
+        # the compiled program is what validate_gate_parameters receives; returns of that object
+        cname = dotted(vcall.args[0]) if vcall.args else None
         rets = [i for i in cfg.ids() if isinstance(cfg.node(i).ast, ast.Return) and cfg.node(i).ast.value is not None
-                and dotted(cfg.node(i).ast.value) == "compiled"]
+                and dotted(resolve_name(f.node, cfg.node(i).ast.value, at=i)) == cname]
         ok = only and bool(gate_if) and bool(rets) and all(cfg.dominates(gate_if[0], r) for r in rets)
         # and no return sits inside the gate branch ahead of the validation
         for r in rets:
             if (gate_if[0], TRUE) in cfg.branch_conditions(r) and not cfg.dominates(vid, r):
                 ok = False
-        arg_ok = vcall.args and dotted(vcall.args[0]) == "compiled"
+        arg_ok = cname is not None and any(isinstance(dd.value, ast.Call) and dotted(dd.value.func) == "self._linked_copy"
+                                           for dd in rd_of(f.node).reaching(cname, vid))
         ok = ok and bool(arg_ok)
     ctx.ob(rule, f.site, ok, "" if ok else "a compiled program can be returned for a device with allowed gate-parameter "
            "ranges without pu.validate_gate_parameters(compiled)", role="validate-before-return", line=f.node.lineno)
@@ -106,13 +109,16 @@ def validation(ctx, rule="C12.validation"):
            role="guard:iterable-range", line=d.node.lineno)
     r = ctx.tree.func("compilers/compiler.py", "Range.__contains__")
     ok = False
-    for n in walk_no_nested(r.node):
-        if isinstance(n, ast.Return) and isinstance(n.value, ast.Compare) and len(n.value.ops) == 2 and \
-                all(isinstance(o, ast.LtE) for o in n.value.ops):
-            l, m_, u = ast.unparse(n.value.left), ast.unparse(n.value.comparators[0]), ast.unparse(n.value.comparators[1])
+    for n, v in return_values(r.node):
+        v = expand_locals(r.node, v)
+        if isinstance(v, ast.Compare) and len(v.ops) == 2 and all(isinstance(o, (ast.LtE, ast.Lt)) for o in v.ops):
+            l, m_, u = ast.unparse(v.left), ast.unparse(v.comparators[0]), ast.unparse(v.comparators[1])
             ok = "self.x" in l and "self.y" in u and m_ == r.pos_params[1]
-        if isinstance(n, ast.Return) and isinstance(n.value, ast.BoolOp) and isinstance(n.value.op, ast.And):
-            t = ast.unparse(n.value)
+        if isinstance(v, ast.Compare) and len(v.ops) == 2 and all(isinstance(o, (ast.GtE, ast.Gt)) for o in v.ops):
+            l, m_, u = ast.unparse(v.left), ast.unparse(v.comparators[0]), ast.unparse(v.comparators[1])
+            ok = "self.y" in l and "self.x" in u and m_ == r.pos_params[1]
+        if isinstance(v, ast.BoolOp) and isinstance(v.op, ast.And):
+            t = ast.unparse(v)
             ok = "self.x" in t and "self.y" in t
     ctx.ob(rule, r.site, ok, "" if ok else "Range.__contains__ is not the two-sided test x - atol <= item <= y + atol",
            role="two-sided", line=r.node.lineno)
@@ -145,40 +151,133 @@ def xseries_guards(ctx, rule="C12.xseries-guards"):
                 "Compiler.compile raises CircuitError on topology and on fixed-parameter mismatch.")
     xu = ctx.tree.func("compilers/xunitary.py", "Xunitary.compile")
     xc = ctx.tree.func("compilers/xcov.py", "Xcov.compile")
-    specs_u = [
-        ("even", lambda t, s: "% 2" in s), ("all-measured", lambda t, s: "len(seq[-1].reg)" in s),
-        ("nothing-before-S2", lambda t, s: s.replace(" ", "") in ("A!=[]", "A")),
-        ("S2-placement", lambda t, s: "issubset" in s), ("equal-phases", lambda t, s: "phi_new != phi" in s),
-        ("passive", lambda t, s: "S @ S.T" in s), ("bipartite", lambda t, s: "U12" in s and "U21" in s),
-        ("symmetric", lambda t, s: "U11" in s and "U22" in s),
-    ]
+    def txt(e):
+        return ast.unparse(e).replace(" ", "")
+
+    def block(e):
+        """'diag' / 'off' for M[:h, :h], M[h:, h:] / M[:h, h:], M[h:, :h]"""
+        if isinstance(e, ast.Subscript) and isinstance(e.slice, ast.Tuple) and len(e.slice.elts) == 2 and \
+                all(isinstance(x, ast.Slice) for x in e.slice.elts):
+            kinds = []
+            for x in e.slice.elts:
+                if x.lower is None and x.upper is not None:
+                    kinds.append("lo")
+                elif x.lower is not None and x.upper is None:
+                    kinds.append("hi")
+                else:
+                    return None
+            return "diag" if kinds[0] == kinds[1] else "off"
+        return None
+
+    def allclose(a):
+        return a if isinstance(a, ast.Call) and (dotted(a.func) or "").endswith("allclose") and len(a.args) >= 2 else None
+
+    def p_even(a, v, raw, n):
+        return any(isinstance(x, ast.BinOp) and isinstance(x.op, ast.Mod) and isinstance(x.right, ast.Constant) and
+                   x.right.value == 2 for x in ast.walk(a))
+
+    def p_all_measured(a, v, raw, n):
+        r_ = rel(a, v)
+        return r_ is not None and r_[0] in ("!=", ">") and any(
+            isinstance(x, ast.Call) and dotted(x.func) == "len" and x.args and isinstance(x.args[0], ast.Attribute) and
+            x.args[0].attr == "reg" and isinstance(x.args[0].value, ast.Subscript) and txt(x.args[0].value.slice) == "-1"
+            for x in ast.walk(a))
+
+    def from_group(f, e, idx, at):
+        d = derives(f.node, e, at)
+        return any(dd.kind == "unpack" and dd.index and dd.index[0] == idx and isinstance(dd.value, ast.Call) and
+                   dotted(dd.value.func) == "group_operations" for dd in d.defs)
+
+    def p_before(a, v, raw, n):
+        # raises when the part in front of the S2gates is non-empty
+        if isinstance(raw, ast.Name):
+            return v and from_group(xu, raw, 0, n.id)
+        r_ = rel(raw, v)
+        return r_ is not None and r_[0] in ("!=", ">") and from_group(xu, raw, 0, n.id)
+
+    def p_place(a, v, raw, n):
+        return not v and isinstance(a, ast.Call) and isinstance(a.func, ast.Attribute) and a.func.attr == "issubset" or \
+            (rel(a, v) or ("",))[0] in (">",) and False
+
+    def p_phase(a, v, raw, n):
+        r_ = rel(raw, v)
+        if r_ is None or r_[0] != "!=":
+            return False
+        d = derives(xu.node, raw, n.id)
+        return any(isinstance(x, ast.Subscript) and isinstance(x.slice, ast.Constant) and x.slice.value == 1 and
+                   (dotted(x.value) or "").endswith(".op.p") for x in d.exprs)
+
+    def p_passive(a, v, raw, n):
+        c = allclose(a)
+        if c is None or v:
+            return False
+        m = c.args[0]
+        return isinstance(m, ast.BinOp) and isinstance(m.op, ast.MatMult) and isinstance(m.right, ast.Attribute) and \
+            m.right.attr == "T" and txt(m.right.value) == txt(m.left)
+
+    def blocks_zero(f, kind):
+        """distinct blocks of the given kind whose vanishing is enforced by a CircuitError guard"""
+        got = set()
+        for n, e, fs in raise_facts(f):
+            if not (e or "").endswith("CircuitError"):
+                continue
+            for a, v in fs:
+                c = allclose(expand_locals(f.node, a))
+                if c is not None and not v and block(c.args[0]) == kind and isinstance(c.args[1], ast.Constant) and c.args[1].value == 0:
+                    got.add(txt(c.args[0]))
+        return got
+
+    def blocks_equal(f, kind):
+        for n, e, fs in raise_facts(f):
+            if not (e or "").endswith("CircuitError"):
+                continue
+            for a, v in fs:
+                c = allclose(expand_locals(f.node, a))
+                if c is not None and not v and block(c.args[0]) == kind and block(c.args[1]) == kind and txt(c.args[0]) != txt(c.args[1]):
+                    return True
+        return False
+
+    specs_u = [("even", p_even), ("all-measured", p_all_measured), ("nothing-before-S2", p_before),
+               ("S2-placement", p_place), ("equal-phases", p_phase), ("passive", p_passive)]
     for role, pred in specs_u:
-        g = find_guard(xu, pred, exc="CircuitError")
+        g = guard(xu, pred, exc="CircuitError", conj=(role == "equal-phases"))
         ctx.ob(rule, xu.site, g is not None, "" if g else f"Xunitary lost its CircuitError guard '{role}'", role=f"guard:{role}",
                line=xu.node.lineno)
-    specs_c = [
-        ("even", lambda t, s: "% 2" in s), ("all-measured", lambda t, s: "len(seq[-1].reg)" in s),
-        ("bipartite", lambda t, s: "B00" in s and "B11" in s), ("symmetric", lambda t, s: "B01" in s and "B10" in s),
-    ]
-    for role, pred in specs_c:
-        g = find_guard(xc, pred, exc="CircuitError")
+    ok = len(blocks_zero(xu, "off")) >= 2
+    ctx.ob(rule, xu.site, ok, "" if ok else "Xunitary lost its CircuitError guard 'bipartite' (both off-diagonal blocks of U "
+           "must vanish)", role="guard:bipartite", line=xu.node.lineno)
+    ok = blocks_equal(xu, "diag")
+    ctx.ob(rule, xu.site, ok, "" if ok else "Xunitary lost its CircuitError guard 'symmetric' (the diagonal blocks of U must agree)",
+           role="guard:symmetric", line=xu.node.lineno)
+    for role, pred in (("even", p_even), ("all-measured", p_all_measured)):
+        g = guard(xc, pred, exc="CircuitError")
         ctx.ob(rule, xc.site, g is not None, "" if g else f"Xcov lost its CircuitError guard '{role}'", role=f"guard:{role}",
                line=xc.node.lineno)
+    ok = len(blocks_zero(xc, "diag")) >= 2
+    ctx.ob(rule, xc.site, ok, "" if ok else "Xcov lost its CircuitError guard 'bipartite' (both diagonal blocks of the adjacency "
+           "matrix must vanish)", role="guard:bipartite", line=xc.node.lineno)
+    ok = blocks_equal(xc, "off")
+    ctx.ob(rule, xc.site, ok, "" if ok else "Xcov lost its CircuitError guard 'symmetric' (the off-diagonal blocks must agree)",
+           role="guard:symmetric", line=xc.node.lineno)
     # the guards dominate the construction of the output
     for f in (xu, xc):
         cfg = cfg_of(f.node)
         rets = [i for i in cfg.ids() if isinstance(cfg.node(i).ast, ast.Return) and cfg.node(i).ast.value is not None]
-        for role in ("even", "all-measured"):
-            pred = dict(specs_u)[role]
-            g = find_guard(f, pred, exc="CircuitError")
+        for role, pred in (("even", p_even), ("all-measured", p_all_measured)):
+            g = guard(f, pred, exc="CircuitError")
             ok = g is not None and all(cfg.dominates(g.id, r) for r in rets)
             ctx.ob(rule, f.site, ok, "" if ok else f"guard '{role}' does not dominate the return of the compiled sequence",
                    role=f"dominate:{role}", line=f.node.lineno)
     c = ctx.tree.func("compilers/compiler.py", "Compiler.compile")
-    g = find_guard(c, lambda t, s: "is_isomorphic" in s, exc="CircuitError")
+    g = guard(c, lambda a, v, raw, n: not v and isinstance(a, ast.Call) and isinstance(a.func, ast.Attribute) and
+              a.func.attr == "is_isomorphic", exc="CircuitError")
     ctx.ob(rule, c.site, g is not None, "" if g else "a topology mismatch with the device layout no longer raises CircuitError",
            role="guard:topology", line=c.node.lineno)
-    g = find_guard(c, lambda t, s: "x != y" in s, exc="CircuitError")
+    def p_fixed(a, v, raw, n):
+        # raises when two corresponding hard-coded arguments differ (possibly qualified by a symbolic-parameter exemption)
+        cmps = [x for x in ast.walk(raw) if isinstance(x, ast.Compare) and isinstance(x.ops[0], (ast.NotEq, ast.Eq))]
+        return bool(cmps) and "args" in derives(c.node, raw, n.id).consts
+    g = guard(c, p_fixed, exc="CircuitError", conj=True)
     ctx.ob(rule, c.site, g is not None, "" if g else "a mismatch of hard-coded layout parameters no longer raises CircuitError",
            role="guard:fixed-params", line=c.node.lineno)
     nm = None
@@ -221,7 +320,8 @@ def merge_params(ctx, rule="C12.merge-params"):
         if nd.kind == "stmt" and isinstance(st, (ast.Assign, ast.AugAssign)):
             v = st.value
             if isinstance(v, ast.Subscript) and isinstance(v.slice, ast.Constant) and (dotted(v.value) or "").endswith(".op.p") \
-                    and "removed" in (dotted(v.value) or ""):
+                    and any(isinstance(dd.value, ast.Call) and isinstance(dd.value.func, ast.Attribute) and dd.value.func.attr == "pop"
+                            for dd in rd.reaching((dotted(v.value) or "?").split(".")[0], nd.id)):
                 t = st.targets[0] if isinstance(st, ast.Assign) else st.target
                 if isinstance(t, ast.Name):
                     reads[v.slice.value] = t.id
